@@ -1,2 +1,256 @@
--- C10 property theorems (to be written)
-import Nq.Basic
+/-
+  C10 — Recipients are routed and rewritten exactly by the control files.
+
+  Model: `Nq.Rewrite` (constmap hash table, control-file readers, `rewrite()`, `senderadd()`, the
+  `todo_do` record loop, the HUP/reread acceptor), tied to control.c, constmap.c and qmail-send.c by
+  the differential harness `harness/c10_route.c` (which also runs the real `main()` with real
+  SIGHUPs). Specification: `Nq.Route` — the rules of qmail-send(8), addresses(5), qmail-control(5).
+-/
+import Nq.Lemmas.RewriteSpec
+import Nq.Lemmas.RewriteVerp
+import Nq.Lemmas.RewriteCase
+import Nq.Lemmas.RewriteTodo
+
+namespace Nq.Props.C10
+open Nq Nq.Rewrite Nq.Route
+open Nq.Lemmas.RewriteMap Nq.Lemmas.RewriteSpec Nq.Lemmas.RewriteVerp Nq.Lemmas.RewriteCase Nq.Lemmas.RewriteTodo
+
+/-! ### the routing rule -/
+
+/-- **`rewrite()` is the documented rule set**, for every configuration in the stated domain (no
+key listed twice in virtualdomains; repeated keys in locals/percenthack are harmless) and every
+recipient byte string: default host, percent hack repeated while the domain is listed, `locals`
+wins, then the most specific virtualdomains entry (full address, domain, dot-suffix wildcards
+longest first, catch-all), empty prepend ⇒ not virtual ⇒ remote. -/
+theorem C10_spec (c : Cfg) (r : Bytes) (h : noDupKeys c.vdoms = true) : rewrite c r = routeSpec c r := by
+  rw [rewrite_eq_G, routeSpec_eq_G]
+  exact routeSpecG_congr (fun k => mapLookup_eq_entryFor c.vdoms k h) c r
+
+/-- Complement of `C10_spec` (outside the stated domain): with repeated keys the code follows the
+same rules with the **later** entry of a repeated key winning. -/
+theorem C10_spec_dupkeys (c : Cfg) (r : Bytes) : rewrite c r = routeSpecG (mapLookup c.vdoms) c r :=
+  rewrite_eq_G c r
+
+/-- **constmap is a finite map**: the bucket/chain hash table built by `constmap_init` (djb hash
+of the case-folded key, `first[]/next[]` chains, stored-hash + length + `case_diffb` test) returns
+exactly the entry whose key equals the looked-up key ignoring ASCII case — for every buffer, both
+`flagcolon` modes, every key (with repeated keys: the later entry). -/
+theorem C10_constmap (s : Bytes) (flagcolon : Bool) (k : Bytes) :
+    (cmInit s flagcolon).lookup k = mapLookup (parseEntries s flagcolon) k :=
+  lookup_cmInit s flagcolon k
+
+/-- …so `rewrite()` over the three hash tables is `rewrite()` over the parsed control files. -/
+theorem C10_constmap_rewrite (raw : RawCfg) (r : Bytes) : rewriteHT raw r = rewrite raw.cfg r := by
+  unfold rewriteHT rewrite
+  have : raw.htLookups = raw.cfg.lookups := by
+    unfold RawCfg.htLookups RawCfg.cfg Cfg.lookups
+    simp only [lookup_cmInit]
+    congr 1
+    funext k; exact lookup_cmInit raw.vdoms true k
+  rw [this]; rfl
+
+/-- without repeated keys the finite map is "the entry for that key" -/
+theorem C10_constmap_nodup (s : Bytes) (flagcolon : Bool) (k : Bytes)
+    (h : noDupKeys (parseEntries s flagcolon) = true) :
+    (cmInit s flagcolon).lookup k = entryFor (parseEntries s flagcolon) k := by
+  rw [C10_constmap, mapLookup_eq_entryFor _ _ h]
+
+/-- **all matching ignores case**: changing the ASCII case of the recipient, of `envnoathost` and of
+any keys in locals / percenthack / virtualdomains changes neither the channel nor the prepended tag,
+and the rewritten address only in the case of its letters. -/
+theorem C10_case (c c' : Cfg) (r r' : Bytes)
+    (he : lower c.env = lower c'.env) (hp : lowerKeys c.ph = lowerKeys c'.ph)
+    (hl : lowerKeys c.locals = lowerKeys c'.locals) (hv : lowerKeys c.vdoms = lowerKeys c'.vdoms)
+    (hr : lower r = lower r') :
+    (rewrite c r).chan = (rewrite c' r').chan ∧ (rewrite c r).tag = (rewrite c' r').tag ∧
+      lower (rewrite c r).addr = lower (rewrite c' r').addr := by
+  unfold rewrite
+  rw [← lookups_keys_ci hp hl hv]
+  exact rewriteWith_ci (cfg_ci c) c.env c'.env r r' he hr
+
+/-! ### the two readings of "the percent hack may be applied repeatedly" -/
+
+/-- no `@` after a `%` in the local part -/
+def pctSafe (l : Bytes) : Prop := ∀ u f, l = u ++ PCT :: f → AT ∉ f
+
+/-- When no extracted `fqdn` can contain an `@`, re-reading the whole address string after every
+percent-hack step (domain = what follows the final `@`) gives the same address as the pair reading
+used by `routeSpec` and by the code. -/
+theorem C10_pct_string (ph : List Ent) (n : Nat) (l d : Bytes) (hd : AT ∉ d) (hl : pctSafe l) :
+    pctString ph n (l ++ AT :: d) = pctFix ph n l d := by
+  induction n generalizing l d with
+  | zero => rfl
+  | succ n ih =>
+    simp only [pctString, pctFix]
+    rw [splitLast_append AT l d hd]
+    simp only
+    split
+    · cases hsp : splitLast PCT l with
+      | none => rfl
+      | some q =>
+        obtain ⟨u, f⟩ := q
+        have hq := (splitLast_some hsp).1
+        simp only
+        apply ih u f (hl u f hq)
+        intro u' f' hu
+        have : l = u' ++ PCT :: (f' ++ PCT :: f) := by rw [hq, hu]; simp
+        have := hl u' _ this
+        intro hm; exact this (by simp [hm])
+    · rfl
+
+/-- Complement: with an `@` inside an extracted fqdn the readings differ — "x%y%b@c@d" with `c`
+and `d` in percenthack is left at "x%y@b@c" by the pair reading (and the code: next domain "b@c"),
+while the string reading goes on to "x@y@b". -/
+example :
+    pctFix [⟨[99], []⟩, ⟨[100], []⟩] 9 [120, 37, 121, 37, 98, 64, 99] [100] = [120, 37, 121, 64, 98, 64, 99] ∧
+    pctString [⟨[99], []⟩, ⟨[100], []⟩] 9 [120, 37, 121, 37, 98, 64, 99, 64, 100] = [120, 64, 121, 64, 98] := by
+  decide
+
+/-! ### order, no loss, no duplication, no merging -/
+
+/-- **`todo_do` partitions the recipient list**: for a `todo` file of header records (`u`,`p`,`F`)
+followed by `T` records (NUL-free addresses) and an optional unterminated tail, preprocessing
+succeeds, `info` gets the `F` records, and `local`/`remote` get, in input order, exactly the
+records `rewrite()` routes to them. -/
+theorem C10_partition (c : Cfg) (hdr rs : List Bytes) (tail : Bytes)
+    (hh : ∀ r ∈ hdr, isHdr r = true ∧ NUL ∉ r) (hr : ∀ r ∈ rs, NUL ∉ r) (ht : NUL ∉ tail) :
+    todoDo c.lookups c.env (encode (hdr ++ rs.map (fun r => TEE :: r)) ++ tail) =
+      some ⟨infoOf hdr, chanFile .loc (routeAll c rs), chanFile .rem (routeAll c rs)⟩ := by
+  unfold todoDo
+  rw [chunks_encode _ _ _ ht, todoFold_append, todoFold_hdr _ _ _ (fun r h => (hh r h).1), todoFold_T]
+  · simp [routeAll, rewrite]
+  · intro r hm
+    rcases List.mem_append.1 hm with hm | hm
+    · exact (hh r hm).2
+    · obtain ⟨x, hx, rfl⟩ := List.mem_map.1 hm
+      have := hr x hx
+      simp only [List.mem_cons, not_or]
+      exact ⟨by decide, this⟩
+
+/-- every input recipient is routed exactly once, in order: the routed list has the recipients'
+length and its i-th element is `rewrite` of the i-th recipient; the two channel lists are an
+order-preserving split of it (their interleaving is the input order). -/
+theorem C10_interleave (c : Cfg) (rs : List Bytes) :
+    (routeAll c rs).length = rs.length ∧
+    (∀ i (h : i < rs.length), (routeAll c rs)[i]? = some (rewrite c rs[i])) ∧
+    Interleave (chanRecs .loc (routeAll c rs)) (chanRecs .rem (routeAll c rs)) (routeAll c rs) := by
+  refine ⟨by simp [routeAll], ?_, ?_⟩
+  · intro i h; simp [routeAll, h]
+  · have := interleave_filter (fun r : Routed => r.chan == Chan.loc) (routeAll c rs)
+    unfold chanRecs
+    simpa only [chan_not_loc] using this
+
+/-- records are never merged or split: a channel file parses back (at its NULs) into exactly one
+record per routed recipient, provided tags and addresses are NUL-free -/
+theorem C10_records (ch : Chan) (routed : List Routed)
+    (h : ∀ r ∈ routed, NUL ∉ r.tag ∧ NUL ∉ r.addr) :
+    chunks (chanFile ch routed) =
+      (chanRecs ch routed).map (fun r => TEE :: (if r.tag = [] then r.addr else r.tag ++ DASH :: r.addr)) := by
+  have hfile : chanFile ch routed =
+      encode ((chanRecs ch routed).map (fun r => TEE :: (if r.tag = [] then r.addr else r.tag ++ DASH :: r.addr))) ++ [] := by
+    unfold chanFile encode
+    rw [List.append_nil, List.flatMap_map]
+    congr 1
+  rw [hfile, chunks_encode _ _ _ (by simp)]
+  intro x hx
+  obtain ⟨r, hr, rfl⟩ := List.mem_map.1 hx
+  have hr' : r ∈ routed := (List.mem_filter.1 hr).1
+  obtain ⟨h1, h2⟩ := h r hr'
+  simp only [List.mem_cons, not_or]
+  refine ⟨by decide, ?_⟩
+  split
+  · exact h2
+  · simp only [List.mem_append, List.mem_cons, not_or]
+    exact ⟨h1, by decide, h2⟩
+
+/-! ### VERP -/
+
+/-- `senderadd` is the documented VERP rule, for all byte strings -/
+theorem C10_verp (sender recip : Bytes) : senderadd sender recip = verpSpec sender recip :=
+  senderadd_eq_verpSpec sender recip
+
+/-- `pre@host-@[]` for a delivery to `box@dom` becomes `prebox=dom@host` -/
+theorem C10_verp_expand (pre host box dom : Bytes) (hh : AT ∉ host) (hd : AT ∉ dom) :
+    senderadd (pre ++ AT :: host ++ VERPSUFFIX) (box ++ AT :: dom) = pre ++ box ++ EQS :: dom ++ AT :: host := by
+  rw [C10_verp, verpSpec_expand pre host box dom hh hd]
+
+/-- every other sender is passed through unchanged: no `-@[]` suffix, or no `@` before it -/
+theorem C10_verp_identity (sender recip : Bytes) :
+    (¬ (sender.length ≥ 4 ∧ sender.drop (sender.length - 4) = VERPSUFFIX) → senderadd sender recip = sender) ∧
+    (∀ b, sender = b ++ VERPSUFFIX → AT ∉ b → senderadd sender recip = sender) ∧
+    (AT ∉ recip → senderadd sender recip = sender) := by
+  refine ⟨fun h => ?_, fun b hb hn => ?_, fun h => ?_⟩
+  · rw [C10_verp, verpSpec_plain _ _ h]
+  · rw [C10_verp, hb, verpSpec_nohost _ _ hn]
+  · rw [C10_verp, verpSpec_noat _ _ h]
+
+/-! ### HUP -/
+
+/-- **after a HUP** the next preprocessed message (and every later one) is routed with `locals` and
+`virtualdomains` as they are on disk at the reread; `percenthack` and `envnoathost` stay as read at
+start-up (as documented). -/
+theorem C10_hup (d d1 d2 : Daemon) (todo : Bytes) (out : Option TodoOut)
+    (h1 : accept d .hup = some d1) (h2 : accept d1 (.msg todo out) = some d2) :
+    d2.cfg = reget d.me d.cfg d.files ∧ d2.flagread = false ∧
+    out = todoDo d2.cfg.htLookups d2.cfg.env todo ∧
+    d2.cfg.ph = d.cfg.ph ∧ d2.cfg.env = d.cfg.env := by
+  simp only [accept, Option.some.injEq] at h1
+  subst h1
+  simp only [accept, Daemon.top, if_true] at h2
+  split at h2
+  · rename_i heq
+    simp only [Option.some.injEq] at h2
+    subst h2
+    refine ⟨rfl, rfl, heq.symm, ?_, ?_⟩ <;>
+    · simp only [reget]; split <;> rfl
+  · simp at h2
+
+/-- what the reread installs: the freshly parsed `locals` (default `me`) and `virtualdomains`
+(absent file = empty); an unreadable `locals` with no `me` keeps everything as it was -/
+theorem C10_hup_reget (me : Option Bytes) (old : RawCfg) (f : Files) :
+    (∀ l, readfile f.locals me true = some l →
+      (reget me old f).locals = l ∧ (reget me old f).vdoms = (readfile f.vdoms me false).getD []) ∧
+    (readfile f.locals me true = none → reget me old f = old) := by
+  constructor
+  · intro l hl; simp [reget, hl]
+  · intro hl; simp [reget, hl]
+
+/-- Complement: without a HUP an edit of the control files changes nothing for later messages -/
+theorem C10_nohup (d d1 d2 : Daemon) (f : Files) (todo : Bytes) (out : Option TodoOut)
+    (hf : d.flagread = false) (h1 : accept d (.edit f) = some d1) (h2 : accept d1 (.msg todo out) = some d2) :
+    d2.cfg = d.cfg ∧ out = todoDo d.cfg.htLookups d.cfg.env todo := by
+  simp only [accept, Option.some.injEq] at h1
+  subst h1
+  simp only [accept, Daemon.top, hf] at h2
+  split at h2
+  · rename_i heq
+    simp only [Option.some.injEq] at h2
+    subst h2
+    exact ⟨rfl, heq.symm⟩
+  · simp at h2
+
+/-! ### non-vacuity (bytes: 64 '@', 37 '%', 46 '.', 58 ':', 45 '-', 0 NUL, 97.. 'a'..) -/
+
+/-- locals "a", percenthack "a", virtualdomains "u@b:t", "b:v", ".b:w", "c.b:" (exception) -/
+def exCfg : Cfg :=
+  { env := [97], ph := [⟨[97], []⟩], locals := [⟨[97], []⟩],
+    vdoms := [⟨[117, 64, 98], [116]⟩, ⟨[98], [118]⟩, ⟨[46, 98], [119]⟩, ⟨[99, 46, 98], []⟩] }
+
+example : noDupKeys exCfg.vdoms = true := by decide
+/-- "u%B@A": percent hack for listed "A" (case-insensitive), then the virtual user u@b wins over b and .b -/
+example : rewrite exCfg [117, 37, 66, 64, 65] = ⟨.loc, [116], [117, 64, 66]⟩ := by decide
+/-- "x@c.b": the empty prepend is an exception to the wildcard ".b" ⇒ remote -/
+example : rewrite exCfg [120, 64, 99, 46, 98] = ⟨.rem, [], [120, 64, 99, 46, 98]⟩ := by decide
+/-- "x@d.b": the wildcard ".b" applies -/
+example : rewrite exCfg [120, 64, 100, 46, 98] = ⟨.loc, [119], [120, 64, 100, 46, 98]⟩ := by decide
+/-- "x" (no @): gets envnoathost "a", which is local -/
+example : rewrite exCfg [120] = ⟨.loc, [], [120, 64, 97]⟩ := by decide
+/-- the hash table finds "B" in the buffer "u@b:t\0b:v\0" (flagcolon) -/
+example : (cmInit [117, 64, 98, 58, 116, 0, 98, 58, 118, 0] true).lookup [66] = some [118] := by decide
+/-- VERP: "l-@h-@[]" for "r@d" gives "l-r=d@h" -/
+example : senderadd [108, 45, 64, 104, 45, 64, 91, 93] [114, 64, 100] = [108, 45, 114, 61, 100, 64, 104] := by decide
+/-- a todo file "u1\0Fs\0Tx@a\0Ty@z\0": one local, one remote record -/
+example : todoDo exCfg.lookups exCfg.env [117, 49, 0, 70, 115, 0, 84, 120, 64, 97, 0, 84, 121, 64, 122, 0] =
+    some ⟨[70, 115, 0], [84, 120, 64, 97, 0], [84, 121, 64, 122, 0]⟩ := by decide
+
+end Nq.Props.C10
